@@ -35,6 +35,7 @@ from pandas.core.generic import NDFrame
 from datetime import datetime, timedelta
 from tqdm import tqdm
 from collections import deque, defaultdict
+from copy import copy
 import pandas_market_calendars
 import pandas as pd
 import numpy as np
@@ -308,7 +309,9 @@ class TradingEnv(gymnasium.Env):
             # The clock of contracts is shared by all environments living in
             # the process. Take it back in case another one has moved it.
             AbstractContract.now = self._now
-        self._queue_actions.appendleft(action)
+        # Queue a snapshot of the action: the caller may reuse (and overwrite
+        # in place) the same buffer before this action is due.
+        self._queue_actions.appendleft(copy(action))
         action = self._queue_actions.pop()
         self._process_latent_events()
         rebalancing = self.action_space.make_rebalancing_request(action, self.now(), self.broker)
